@@ -666,7 +666,7 @@ SHARD_TIMEOUT = {"quick": 2400, "thorough": 12000}
 
 
 def plan(tier, seed):
-    n, nsh = (1300, 14) if tier == "quick" else (60000, 16)
+    n, nsh = (4000, 14) if tier == "quick" else (60000, 16)
     t = [("programs", dict(seed=seed, shard=s, n=n)) for s in range(nsh)]
     t += [("shipped", dict(shard=s, nshards=2 if tier == "quick" else 8)) for s in range(2 if tier == "quick" else 8)]
     return t
